@@ -8,9 +8,11 @@
   Property theorems (namespace `MdIt.Pipeline`); common hypotheses: the `i32` size bound of
   `doc_block_ranges`; the paragraph rule in the block chain (`hpara`, necessary: witness in
   Props/C05Doc.lean); `NoSplitTab cfg src` (`hnv`; follows from `'\t' ∉ src`:
-  `noSplitTab_of_tabFree`; NECESSARY for the text clause and ALSO for validity, enclosure and
-  character boundaries: two crate-confirmed witnesses below, `ranges_ordered_needs_htab` — item A of
-  Props/C05Inline.lean is FALSE as stated); and `AsciiMarkers`: every
+  `noSplitTab_of_tabFree`; NECESSARY for the text clause: crate-confirmed witness below, a code span
+  over a split tab.  For validity, enclosure and character boundaries it WAS necessary too — the
+  witness `exTab` — until `fix:` "positions inside the virtual spaces of a split tab" clamped
+  `get_source_pos_for`; now `ranges_ordered_exTab` shows the repaired ranges and item A of
+  Props/C05Inline.lean is open again, no longer refuted); and `AsciiMarkers`: every
   emphasis-like rule of the inline chain has a single-byte marker other than the line feed
   (`*`, `_`, `~` in the shipped plugins; a limitation of the proof, not known to be necessary: with
   a multi-byte marker the model panics as soon as the rule fires — it advances by the NUMBER of
@@ -401,78 +403,141 @@ example : ¬ RangesOk "- `\n\ta `".toList
 example : (parseDoc { exCfg false 100 with inlineChain := [.emph 'é' true, .text] } "éa".toList).toOption.isNone = true := by
   decide +kernel
 
-/-- **FINDING (model and crate agree, probe `md.parse`): with a split tab the range of the `Text`
-    inside a code span can end BEYOND THE SOURCE, outside its parent, inside a character.**
+/-! ## the split tab inside a padded code span: the defect `fix:` "positions inside the virtual spaces
+       of a split tab" repairs -/
+
+/-- **REPAIRED FINDING (model and crate agreed before the fix, and agree after it; probe `md.parse`).**
     `"-    ` a\n\t\t`"` (12 bytes): the item's content column is 5, the continuation line's two
     tabs reach column 8, so `get_lines` replaces the second tab by THREE virtual spaces (content
     `"` a\n   `"`, table `[(0,5),(4,11),(7,11)]`).  The code span is padded (` a…␣`): `code_pair.rs`
     strips one byte at each end (`pos += 1; match_start -= 1`), and `match_start - 1 = 6` lies
-    strictly inside the virtual segment `4..7`, where `get_source_pos_for` translates linearly
-    (`tr 6 = 11 + 2 = 13`) although the whole segment sits on source byte 11.  Result:
-    `CodeInline (5,12)` with child `Text "a   "` at `(7,13)`; `13 > 12 = |src|`.  With a trailing
-    `é` the end 13 lies inside the character (`13` is not a boundary of the 14-byte source).
-    So `'\t' ∉ src` is necessary not only for the text clause but for validity, enclosure and
-    character boundaries — item A of Props/C05Inline.lean ("`doc_ranges_ordered` for all sources")
-    is FALSE as stated. -/
+    strictly inside the virtual segment `4..7`.  BEFORE the fix `get_source_pos_for` translated
+    linearly there (`getSourcePosForRaw … 6 = 11 + 2 = 13`) although the whole segment sits on source
+    byte 11: `CodeInline (5,12)` with child `Text "a   "` at `(7,13)`, `13 > 12 = |src|` — beyond the
+    source, outside its parent, and with a trailing `é` inside a character.  The repaired function
+    clamps to the source offset of the next table entry (`tr 6 = min 13 11 = 11`,
+    `C05.translate_le_next`): the `Text` is `(7,11)`, inside its `CodeInline (5,12)`. -/
 def exTab : List Char := "-    ` a\n\t\t`".toList
 
+example : InlineOps.getSourcePosForRaw [(0, 5), (4, 11), (7, 11)] 6 = .ok 13 ∧
+    InlineOps.getSourcePosFor [(0, 5), (4, 11), (7, 11)] 6 = .ok 11 := by decide +kernel
+
 example : (parseDoc (exCfg false 100) exTab).toOption.map (flatN 0) =
-    some [(0, 0, 12), (1, 0, 12), (2, 0, 12), (3, 5, 12), (4, 7, 13)] := by decide +kernel
+    some [(0, 0, 12), (1, 0, 12), (2, 0, 12), (3, 5, 12), (4, 7, 11)] := by decide +kernel
 
 example : (parseDoc (exCfg false 100) "-    ` a\n\t\t`é".toList).toOption.map (flatN 0) =
-      some [(0, 0, 14), (1, 0, 14), (2, 0, 14), (3, 5, 12), (4, 7, 13), (3, 12, 14)] ∧
-    Lines.onBoundary "-    ` a\n\t\t`é".toList 13 = false := by decide +kernel
+      some [(0, 0, 14), (1, 0, 14), (2, 0, 14), (3, 5, 12), (4, 7, 11), (3, 12, 14)] ∧
+    Lines.onBoundary "-    ` a\n\t\t`é".toList 11 = true := by decide +kernel
 
-/-- `htab` cannot be dropped from `doc_ranges_ordered` (Props/C05Inline.lean), hence `NoSplitTab` not
-    from `doc_ranges_ok` / `doc_boundaries` either -/
-theorem ranges_ordered_needs_htab : ¬ (∀ t, parseDoc (exCfg false 100) exTab = .ok t →
-    Every (NodeOrd exTab) t) := by
-  intro hall
-  have hsome : (parseDoc (exCfg false 100) exTab).toOption.isSome = true := by decide +kernel
-  cases hp : parseDoc (exCfg false 100) exTab with
-  | error e => rw [hp] at hsome; cases hsome
-  | ok t =>
-    have he := hall t hp
-    have hd : (parseDoc (exCfg false 100) exTab).toOption.map
-        (fun t => t.children.flatMap fun l => l.children.flatMap fun i => i.children.flatMap fun c =>
-          c.children.map fun x => x.range) = some [some (7, 13)] := by decide +kernel
-    rw [hp] at hd
-    simp only [Except.toOption, Option.map_some, Option.some.injEq] at hd
-    have hm : (some (7, 13) : Option (Nat × Nat)) ∈
-        (t.children.flatMap fun l => l.children.flatMap fun i => i.children.flatMap fun c =>
-          c.children.map fun x => x.range) := by rw [hd]; simp
-    simp only [List.mem_flatMap, List.mem_map] at hm
-    obtain ⟨l, hl, i, hi, c, hc, x, hx, hr⟩ := hm
-    obtain ⟨a, b, hr', _, hb, _⟩ := ((((he.child l hl).child i hi).child c hc).child x hx).here
-    rw [hr] at hr'
-    simp only [Option.some.injEq, Prod.mk.injEq] at hr'
-    obtain ⟨rfl, rfl⟩ := hr'
-    have : Lines.byteLen exTab = 12 := by decide
-    omega
+/-- executable check of `OrderedD` -/
+def orderedDB : Nat → Nat → List Node → Bool
+  | lo, hi, [] => decide (lo ≤ hi)
+  | lo, hi, n :: rest =>
+    match n.range with
+    | some (a, b) => decide (lo ≤ a) && decide (a ≤ b) && orderedDB b hi rest
+    | none => false
+
+theorem orderedDB_sound : ∀ (l : List Node) (lo hi : Nat), orderedDB lo hi l = true → OrderedD lo hi l
+  | [], lo, hi, h => by simpa [orderedDB, OrderedD] using h
+  | n :: rest, lo, hi, h => by
+    simp only [orderedDB] at h
+    split at h
+    · next a b hr =>
+      simp only [Bool.and_eq_true, decide_eq_true_eq] at h
+      exact ⟨a, b, hr, h.1.1, h.1.2, orderedDB_sound rest b hi h.2⟩
+    · cases h
+
+mutual
+/-- executable check of `Every (NodeOrd src)` (`len = |src|`) -/
+def nodeOrdB (len : Nat) : Node → Bool
+  | ⟨_, r, _, cs⟩ =>
+    (match r with
+     | some (a, b) => decide (a ≤ b) && decide (b ≤ len) && orderedDB a b cs
+     | none => false) && nodeOrdBL len cs
+def nodeOrdBL (len : Nat) : List Node → Bool
+  | [] => true
+  | c :: r => nodeOrdB len c && nodeOrdBL len r
+end
+
+mutual
+theorem nodeOrdB_sound (src : List Char) : ∀ (n : Node), nodeOrdB (Lines.byteLen src) n = true →
+    Every (NodeOrd src) n
+  | ⟨k, r, at_, cs⟩, h => by
+    simp only [nodeOrdB, Bool.and_eq_true] at h
+    refine .mk _ ?_ (nodeOrdBL_sound src cs h.2)
+    obtain ⟨h1, _⟩ := h
+    split at h1
+    · next a b =>
+      simp only [Bool.and_eq_true, decide_eq_true_eq] at h1
+      exact ⟨a, b, rfl, h1.1.1, h1.1.2, orderedDB_sound cs a b h1.2⟩
+    · cases h1
+theorem nodeOrdBL_sound (src : List Char) : ∀ (l : List Node), nodeOrdBL (Lines.byteLen src) l = true →
+    ∀ c ∈ l, Every (NodeOrd src) c
+  | [], _ => by simp
+  | x :: r, h => by
+    simp only [nodeOrdBL, Bool.and_eq_true] at h
+    intro c hc
+    have hx := nodeOrdB_sound src x h.1
+    have hr := nodeOrdBL_sound src r h.2
+    rcases List.mem_cons.mp hc with e | hc
+    · rw [e]; exact hx
+    · exact hr c hc
+end
+
+/-- **the former counter-witness, repaired** (before the fix this file proved
+    `ranges_ordered_needs_htab : ¬ ∀ t, parseDoc … exTab = .ok t → Every (NodeOrd exTab) t`; its
+    `decide +kernel` step now evaluates to the repaired ranges and the negation is unprovable): on
+    the split-tab document every node has a valid range inside the source, its children inside it, in
+    order — the `Text` `(7,11)` inside its `CodeInline` `(5,12)`, `11 ≤ 12 = |src|`. -/
+theorem ranges_ordered_exTab : ∀ t, parseDoc (exCfg false 100) exTab = .ok t →
+    t.range = some (0, Lines.byteLen exTab) ∧ Every (NodeOrd exTab) t := by
+  intro t ht
+  have hd : (parseDoc (exCfg false 100) exTab).toOption.map
+      (fun t => (t.range, nodeOrdB (Lines.byteLen exTab) t)) = some (some (0, 12), true) := by
+    decide +kernel
+  rw [ht] at hd
+  simp only [Except.toOption, Option.map_some, Option.some.injEq, Prod.mk.injEq] at hd
+  exact ⟨hd.1, nodeOrdB_sound exTab t hd.2⟩
+
+/-- non-vacuity: the document parses -/
+example : (parseDoc (exCfg false 100) exTab).toOption.isSome = true := by decide +kernel
+
+/-- the same with the multi-byte character behind the span: no range end inside a character -/
+example : (parseDoc (exCfg false 100) "-    ` a\n\t\t`é".toList).toOption.map
+      (nodeOrdB (Lines.byteLen "-    ` a\n\t\t`é".toList)) = some true := by decide +kernel
 
 /-
-OPEN (item A of Props/C05Inline.lean, sources WITH tabs).  "`doc_ranges_ordered` for all sources" is
-FALSE (`ranges_ordered_needs_htab`).  What the evidence supports instead:
+OPEN (item A of Props/C05Inline.lean, sources WITH split tabs), after `fix:` "positions inside the
+virtual spaces of a split tab" (`get_source_pos_for` clamped to the source offset of the next table
+entry; `C05.translate_mono_all`, `C05.translate_le_next`).
+
+  REMAINS FALSE, inherently: the TEXT clause for the `Text` child of a code span that holds virtual
+  spaces (the `¬ RangesOk` example above: `"- `\n\ta `"` gives `Text "  a"` at `(5, 6)`,
+  `src[5..6] = "a"`, before and after the fix): characters that have no bytes in the source cannot be
+  selected by ANY range, so no translation function can repair it; `doc_text_faithful` /
+  `doc_ranges_ok` keep `NoSplitTab`, or must exempt the `Text` under a `CodeInline`.
+
+  NO LONGER REFUTED, and what the evidence supports now (the only counter-witness known,
+  `exTab`, is repaired: `ranges_ordered_exTab`):
+
+  theorem doc_ranges_ordered_tabs (cfg : DocCfg) (src : List Char) (t : Node)
+      (hsmall : 4 * Lines.byteLen src + 8 < 2147483648) (hpara : cfg.hasPara = true)
+      (h : parseDoc cfg src = .ok t) :
+      t.range = some (0, Lines.byteLen src) ∧ Every (NodeOrd src) t
+  (`doc_ranges_ordered` of Props/C05Inline.lean without `htab`), and
 
   theorem doc_ranges_ok_tabs (cfg : DocCfg) (src : List Char) (t : Node)
       (hsmall : 4 * Lines.byteLen src + 8 < 2147483648) (hpara : cfg.hasPara = true)
       (hmk : AsciiMarkers cfg.inlineChain) (h : parseDoc cfg src = .ok t) :
       t.range = some (0, Lines.byteLen src) ∧ EveryButCodeText (NodeOk src) t
-  (`NodeOk` at every node that is not the `Text` child of a `CodeInline`, the `OrderedD` clause of a
-  `CodeInline` dropped) — or, after repairing the crate (`get_source_pos_for` clamped to the value
-  of the next table entry, so that all positions of a virtual segment translate to the source byte
-  the segment sits on), validity / enclosure / boundaries at EVERY node and the text clause outside
-  code spans.
+  (validity, enclosure, order and character boundaries at EVERY node; the text clause at every `Text`
+  that is not the child of a `CodeInline`).
 
-  EVIDENCE (model, `#eval` fuzz in this task): 60 000 random documents of 3–16 characters over
-  `- space tab a LF backtick * > 1 . # b \ & [ ] ( ) é _ < : ;` and 210 000 documents assembled
-  from 2–10 pieces out of `"- "`, `"> "`, tab, blank, backtick(s), `a`, LF, `*`, `"1. "`, LF+tab,
-  LF+blank+tab, `\`, `é`, `[`, `](x)`, tab+tab, `-`+tab, `>`+tab, `"-    "`, backtick+blank,
-  blank+backtick, backtick+LF, LF+tab+tab, `&amp;`, `<a:b>`, `_`: outside code spans no clause of
-  `NodeOk` (validity, enclosure, order, boundaries, text) and no markup clause of a `TextSpecial`
-  was ever violated.  Crate fuzz of Props/C05Inline.lean: 400 000 short documents without
-  violation of validity / enclosure / order / boundaries (the padded-code-span witness needs
-  `blank…LF tab tab backtick` and was not hit).
+  EVIDENCE: the differential streams (model = repaired crate, 0 differences, split-tab code spans
+  included) and the crate oracle C05 on the repaired crate — only the class
+  `text-faithful-split-tab` is left (numbers in the task report); pre-fix model fuzz of this file's
+  first version (270 000 short documents over a tab-heavy alphabet): outside code spans no clause of
+  `NodeOk` was ever violated.
 
   MISSING, precisely (all on the inline side; the block side is done for all sources:
   `doc_placeholder_tables`, `parseBlocks_geo3`; `inlSpec3_pfull` restricts `PFth` to tab-free
@@ -480,20 +545,27 @@ FALSE (`ranges_ordered_needs_htab`).  What the evidence supports instead:
    A1. `PFthV src c m` — `PFth` with `copy` restricted to stretches `[p, q]` whose ends are not
        strictly inside a virtual-space segment (`C05.NotInsideVirtual m p`, `… q`), provable from
        `Lines.Faithful` exactly as `fa_mapOf_seg` / `fa_pfth_of_seg` of Lemmas/C05RestFaith.lean (the
-       virtual spaces of a line are `c[k .. k + virt)`, two table entries `(k, v)`, `(k + virt, v)`).
+       virtual spaces of a line are `c[k .. k + virt)`, two table entries `(k, v)`, `(k + virt, v)`);
+       for boundaries: every position of a virtual segment now translates to the segment's own
+       source offset `v` (`C05.translate_le_next` + `C05.translate_ge_entry`), a character boundary.
    A2. the inline range theorems (`Inline.ranges_induction`, `parseInline_ranges_exact`:
-       Lemmas/InlineRanges2–6.lean, C05InlineExit.lean) and the `FI` induction of
-       Lemmas/C05RestInline.lean / C05RestEmph.lean under `WFMap ∧ MonoMapV ∧ KeysLFV` instead of
-       `MapOK`, with the extra frame invariant "`pos` and both arguments of every `getMap` call are
-       not strictly inside a virtual-space segment": true because a virtual segment consists of
-       blanks directly behind a line feed of the content (or at its start, which `trim_src` skips),
-       the newline rule and the `\`+LF rule skip ALL blanks behind the line feed, and no other rule
-       stops inside a run of blanks it did not start in — EXCEPT the code-span rule: its interior
-       may START at the line feed / at the first virtual space (harmless: `tr` of the start of a
-       segment is the segment's source byte) and its STRIPPED interior may END strictly inside the
-       segment (`match_start - 1`, the witness above).  `C05.translate_mono_virtual` (Props/C05.lean)
-       replaces `translate_mono`; `Inline.translate_expand` (used for `StrictTop`) holds outside
-       virtual segments.
+       Lemmas/InlineRanges2–6.lean, C05InlineExit.lean) under `WFMap ∧ MonoMapV ∧ KeysLFV` instead of
+       `MapOK`.  With the clamp the ORDER part needs no extra frame invariant any more:
+       `C05.translate_mono_all` replaces `translate_mono` everywhere (monotone at every position, the
+       inside of a virtual segment included), and `C05I.UpTo` / `getLines_lower` bound every
+       translated position by the block's range.  What does NOT survive is
+       `Inline.translate_expand` (`tr p + (q − p) ≤ tr q`, used for `StrictTop`: non-empty ranges of
+       text-like nodes) and `Inline.translate_same_line` (shift inside a line): both are false
+       inside a virtual segment (the translation is constant there), so `StrictTop` and the `FI`
+       induction of Lemmas/C05RestInline.lean / C05RestEmph.lean still need "`pos` and both arguments
+       of the `getMap` call are not strictly inside a virtual-space segment" for every rule but the
+       code-span rule: true because a virtual segment consists of blanks directly behind a line feed
+       of the content (or at its start, which `trim_src` skips), the newline rule and the `\`+LF
+       rule skip ALL blanks behind the line feed, and no other rule stops inside a run of blanks it
+       did not start in.  The code-span rule's interior may START at the first virtual space and its
+       STRIPPED interior may END strictly inside the segment (`match_start - 1`, `exTab`): there
+       only `translate_mono_all` / `translate_le_next` apply — enough for `NodeOrd`, not for the
+       text clause (which is false there).
 -/
 
 end MdIt.Pipeline
